@@ -229,6 +229,32 @@ fn one_call(
     )
 }
 
+/// run `f` on a worker thread; a call that does not return within 10 s is reported as a hang and
+/// the process ends (C09/C16: "never ... loop forever")
+fn guarded(label: String, f: impl FnOnce() -> String + Send + 'static) -> String {
+    let (tx, rx) = std::sync::mpsc::channel();
+    let h = std::thread::Builder::new()
+        .stack_size(8 << 20)
+        .spawn(move || {
+            let r = std::panic::catch_unwind(std::panic::AssertUnwindSafe(f));
+            let _ = tx.send(r.ok());
+        })
+        .expect("spawn");
+    match rx.recv_timeout(std::time::Duration::from_secs(10)) {
+        Ok(Some(l)) => {
+            let _ = h.join();
+            l
+        }
+        Ok(None) => format!("{} result=panic left=0", label),
+        Err(_) => {
+            use std::io::Write;
+            println!("{} result=hang left=0", label);
+            let _ = std::io::stdout().flush();
+            std::process::exit(0);
+        }
+    }
+}
+
 fn tok<'a>(args: &'a [String], k: &str) -> Option<&'a str> {
     args.iter().find_map(|t| t.strip_prefix(k).and_then(|r| r.strip_prefix('=')))
 }
@@ -242,7 +268,7 @@ fn parse_ent(s: &str) -> Ent {
 }
 
 /// re-run one recorded `mut` line (a replay)
-fn replay_mut(args: &[String]) {
+fn replay_mut(args: &[String]) -> String {
     let kind = tok(args, "kind").unwrap_or("?");
     let mi = MUT_NAMES.iter().position(|n| *n == kind).expect("mutator kind");
     let unsafe_m = tok(args, "unsafe") == Some("1");
@@ -302,18 +328,20 @@ fn replay_mut(args: &[String]) {
             (format!("{}:{}", if r.0 { "changed" } else { "same" }, hexb(&r.1)), l)
         }
     };
-    println!(
+    format!(
         "mut kind={} unsafe={} method={} value={} rate={:016x} ent={} result={} left={}",
         kind, unsafe_m as u8, method, value, rate_bits, ent.tag(), result, left
-    );
+    )
+}
+
+fn guarded_replay(args: Vec<String>) -> String {
+    let label = format!("mut {}", args.iter().filter(|a| a.contains('=')).cloned().collect::<Vec<_>>().join(" "));
+    guarded(label, move || replay_mut(&args))
 }
 
 pub fn cmd_mut(args: &[String]) {
     if args.iter().any(|a| a == "--replay") {
-        let r = std::panic::catch_unwind(|| replay_mut(args));
-        if r.is_err() {
-            println!("mut {} result=panic left=0", args.iter().filter(|a| a.contains('=')).cloned().collect::<Vec<_>>().join(" "));
-        }
+        println!("{}", guarded_replay(args.to_vec()));
         return;
     }
     let n: u64 = crate::arg_val(args, "--cases", "2000").parse().unwrap();
@@ -339,7 +367,16 @@ pub fn cmd_mut(args: &[String]) {
                         Ent::Arb(vec![0xff; 20]),
                         Ent::Rand(e as u64),
                     ] {
-                        println!("{}", one_call(mi, false, method, rates[r], &ent, &mut rng, Some(e)));
+                        let label = format!(
+                            "mut kind={} unsafe=0 method={} value=? rate={:016x} ent={}",
+                            MUT_NAMES[mi], method, rates[r], ent.tag()
+                        );
+                        let sub = rng.next();
+                        let (rt, ent2) = (rates[r], ent.clone());
+                        println!("{}", guarded(label, move || {
+                            let mut r2 = Rng(sub);
+                            one_call(mi, false, method, rt, &ent2, &mut r2, Some(e))
+                        }));
                     }
                 }
             }
@@ -369,10 +406,7 @@ pub fn cmd_mut(args: &[String]) {
                 format!("rate={:016x}", rates[1]),
                 format!("ent=arb:{}", hex(&ent)),
             ];
-            let r = std::panic::catch_unwind(|| replay_mut(&args));
-            if r.is_err() {
-                println!("mut {} result=panic left=0", args.join(" "));
-            }
+            println!("{}", guarded_replay(args));
         }
         // type confusion (unsafe, rate 1.0) on an emission that starts with every possible byte
         let ent: Vec<u8> = vec![0u8; 8].into_iter().chain([b % 8, 1, 2, 3, 4, 5, 6, 7, 8]).collect();
@@ -384,10 +418,7 @@ pub fn cmd_mut(args: &[String]) {
             format!("rate={:016x}", rates[1]),
             format!("ent=arb:{}", hex(&ent)),
         ];
-        let r = std::panic::catch_unwind(|| replay_mut(&args));
-        if r.is_err() {
-            println!("mut {} result=panic left=0", args.join(" "));
-        }
+        println!("{}", guarded_replay(args));
     }
     for i in 0..n {
         let mi = (i % 7) as usize;
@@ -399,17 +430,16 @@ pub fn cmd_mut(args: &[String]) {
             _ => rates[2 + rng.below(3) as usize],
         };
         let ent = sample_ent(&mut rng);
-        let line = {
-            let r = std::panic::catch_unwind(std::panic::AssertUnwindSafe(|| {
-                one_call(mi, unsafe_m, method, rate, &ent, &mut rng, None)
-            }));
-            r.unwrap_or_else(|_| {
-                format!(
-                    "mut kind={} unsafe={} method={} value=? rate={:016x} ent={} result=panic left=0",
-                    MUT_NAMES[mi], unsafe_m as u8, method, rate, ent.tag()
-                )
-            })
-        };
+        let label = format!(
+            "mut kind={} unsafe={} method={} value=? rate={:016x} ent={}",
+            MUT_NAMES[mi], unsafe_m as u8, method, rate, ent.tag()
+        );
+        let sub = rng.next();
+        let ent2 = ent.clone();
+        let line = guarded(label, move || {
+            let mut r2 = Rng(sub);
+            one_call(mi, unsafe_m, method, rate, &ent2, &mut r2, None)
+        });
         println!("{}", line);
     }
 }
@@ -430,8 +460,9 @@ const GRID: [usize; 12] = [
 ];
 
 fn src_call(method: &str, a: usize, b: usize, ent: &Ent) -> String {
-    let r = std::panic::catch_unwind(std::panic::AssertUnwindSafe(|| src_call_inner(method, a, b, ent)));
-    r.unwrap_or_else(|_| format!("src method={} a={} b={} ent={} result=panic left=0", method, a, b, ent.tag()))
+    let label = format!("src method={} a={} b={} ent={}", method, a, b, ent.tag());
+    let (m, e) = (method.to_string(), ent.clone());
+    guarded(label, move || src_call_inner(&m, a, b, &e))
 }
 
 fn src_call_inner(method: &str, a: usize, b: usize, ent: &Ent) -> String {
